@@ -493,7 +493,7 @@ def parse_config(path):
     )
 
     # Optional SCSV or NPZ pathline outputs, not sensible if there are pathline inputs.
-    if "paths" in _input and "paths" in _output:
+    if _input.get("paths") is not None and "paths" in _output:
         _log.warning(
             "input pathlines and output pathline filenames are mutually exclusive;"
             + " ignoring output pathline filenames"
